@@ -23,7 +23,8 @@ RULE = ("prim: shuffle_buffer / round_robin / LazyPool (+round_robin) over a "
         "counting source of length n1 << n2 or infinite, buffer b, threads T, "
         "take k; oracle at every yield: pulled - needed <= 4(b+T)+8 "
         "(independent of n). iface: dataset with few or many (40..90) shards, "
-        "repeat on/off, shuffle in {0, small}, file_parallelism 1..4, "
+        "repeat on/off, shuffle in {0, small}, file_parallelism 1..4 or "
+        "relative to the shard count (s-1, s, s+1), "
         "interfaces sync/conc/async; oracle at every yield: shard files "
         "opened <= ceil(k/min_shard_size) + 4(ceil(shuffle/min_shard_size)+T)"
         "+8; taking k from the infinite stream terminates within the step "
